@@ -6,6 +6,74 @@ import sys
 import traceback
 
 
+def selfcheck(pid, mod, repo, chk):
+    """Thorough tier: replay every catalogued breaking change of this property (selftest/variants.py + seeded/) on a scratch copy of
+    the tree under analysis and require that this checker reports an unlisted violation for it; replay the behaviour-preserving
+    variants and require silence.  A checker that has lost a rule is reported as ANALYSIS-ERROR (never as a verdict on /repo).
+    Variants whose anchor text is absent (the tree under analysis was edited there) are skipped and counted."""
+    import glob
+    import shutil
+    import subprocess
+    import tempfile
+    from .core import AnalysisError, Repo
+    from .report import Check, VERIF, load_known
+    sys.path.insert(0, os.path.join(VERIF, "selftest"))
+    import variants
+    cat = list(variants.V)
+    for mf in sorted(glob.glob(os.path.join(VERIF, "seeded", "*", "meta.json"))):
+        m = json.load(open(mf))
+        cat.append(dict(name="seeded:" + m["id"], file="", expect=[m["breaks_property"]], patch=os.path.join(os.path.dirname(mf), "patch.diff")))
+    known = {k["key"] for k in load_known().get("findings", [])}
+    base = {o.key for o in chk.obligations if not o.ok}
+    replayed = detected = silent_ok = skipped = 0
+    missed = []
+    for v in cat:
+        exp = v.get("expect")
+        if exp is None or (pid not in exp and exp != []):
+            continue
+        d = tempfile.mkdtemp(prefix="ptsc_")
+        try:
+            shutil.copytree(os.path.join(repo.root, "ptera"), d + "/ptera")
+            if v.get("patch"):
+                r = subprocess.run(["patch", "-p1", "-s", "-d", d, "-i", v["patch"]], capture_output=True, text=True)
+                if r.returncode:
+                    skipped += 1
+                    continue
+            else:
+                fp = f"{d}/ptera/{v['file']}"
+                src = open(fp).read()
+                edits = v.get("edits") or [(v["old"], v["new"])]
+                if any(src.count(o) != 1 for o, n in edits):
+                    skipped += 1
+                    continue
+                for o, n in edits:
+                    src = src.replace(o, n)
+                open(fp, "w").write(src)
+            c2 = Check(pid, "quick")
+            try:
+                mod.run(Repo(d), c2)
+                new = {o.key for o in c2.obligations if not o.ok} - base - known
+            except AnalysisError as e:
+                new = set() if exp == [] else {f"analysis-error:{e}"}
+                if exp == []:
+                    missed.append(f"{v['name']}: behaviour-preserving variant made the analysis fail ({e})")
+            replayed += 1
+            if exp == []:
+                if new:
+                    missed.append(f"{v['name']}: behaviour-preserving variant reported {sorted(new)[:2]}")
+                else:
+                    silent_ok += 1
+            elif new:
+                detected += 1
+            else:
+                missed.append(f"{v['name']}: breaking variant not reported")
+        finally:
+            shutil.rmtree(d, ignore_errors=True)
+    chk.analysed["selfcheck"] = {"variants_replayed": replayed, "breaking_detected": detected, "preserving_silent": silent_ok, "skipped_anchor_absent": skipped}
+    if missed:
+        raise AnalysisError("self-check of the checker failed: " + "; ".join(missed[:4]))
+
+
 def main(argv):
     import argparse
     ap = argparse.ArgumentParser()
@@ -36,6 +104,8 @@ def main(argv):
         repo = Repo()
         chk = Check(pid, a.tier)
         mod.run(repo, chk)
+        if a.tier == "thorough" and not os.environ.get("VERIF_NO_SELFCHECK"):
+            selfcheck(pid, mod, repo, chk)
         return chk.finish()
     except AnalysisError as e:
         print(f"ANALYSIS-ERROR property={pid} {e}")
